@@ -322,7 +322,12 @@ fn is_useful_wildcard(
 ) -> Result<WitnessReport, ErrorEmitted> {
     // 1. Compute Σ = {c₁, ... , cₙ}, which is the set of constructors that appear
     //    as root constructors of the patterns of *P*'s first column.
-    let sigma = p.compute_sigma(handler, span)?;
+    //    Or-patterns in the first column contribute each of their alternatives: specializing by an
+    //    or-pattern as a whole would mix rows of different arities (e.g. `E::A(_) | _`).
+    let sigma = p
+        .compute_sigma(handler, span)?
+        .flatten()
+        .remove_duplicates();
 
     // 2. Determine if Σ is a complete signature.
     let is_complete_signature = factory.is_complete_signature(handler, engines, &sigma, span)?;
